@@ -128,17 +128,17 @@ Section Route.
     spec_route_hop rules (presult_hop pr) t.
   Proof.
     intros Hwf. destruct pr as [|sch hp|].
-    - unfold spec_route_hop, presult_hop, spec_target_addr, route_connect, route_plain.
+    - unfold spec_route_hop, spec_named, presult_hop, spec_target_addr, route_connect, route_plain.
       destruct (t_kind t); rewrite dial_redirect_is_spec; reflexivity.
     - destruct Hwf as [Hs Hc]. unfold presult_hop.
       destruct (ptype_of_scheme sch) as [ty|] eqn:Ety; [|congruence].
-      unfold spec_route_hop, spec_wire, route_connect, route_plain.
+      unfold spec_route_hop, spec_named, spec_wire, spec_target_addr, route_connect, route_plain.
       rewrite (canon_canonical_addr _ _ Hc), Hsocks.
       destruct (ptype_cases _ _ Ety) as [[-> ->]|[[-> ->]|[-> ->]]].
       + rewrite handler_http, Htls, (canon_connect_addr _ _ Hc), !dial_redirect_is_spec.
-        destruct (t_kind t); reflexivity.
+        destruct (t_kind t); [destruct (str_eqb (t_scheme t) (b "http"))|]; reflexivity.
       + rewrite handler_https, Htls, (canon_connect_addr _ _ Hc), !dial_redirect_is_spec.
-        destruct (t_kind t); reflexivity.
+        destruct (t_kind t); [destruct (str_eqb (t_scheme t) (b "http"))|]; reflexivity.
       + rewrite handler_socks5, (canon_connect_addr _ _ Hc), !dial_redirect_is_spec.
         destruct (t_kind t); reflexivity.
     - destruct (t_kind t); reflexivity.
@@ -237,15 +237,15 @@ Section Route.
     cfg_wf cfg ->
     match spec_route cfg rules t with
     | OFail => exchange cfg rules t attempts failures = []
-    | OSent a tls w =>
+    | OSent a tls w nm =>
         (forall e, In e (exchange cfg rules t attempts failures) -> event_addr e = a) /\
         (exists n, (1 <= n)%nat /\
-           (exchange cfg rules t attempts failures = repeat (EvDial a) n ++ [EvUse a tls w] \/
+           (exchange cfg rules t attempts failures = repeat (EvDial a) n ++ [EvUse a tls w nm] \/
             exchange cfg rules t attempts failures = repeat (EvDial a) n))
     end.
   Proof.
     intros Hwf. unfold exchange. rewrite (route_is_spec _ _ _ Hwf).
-    destruct (spec_route cfg rules t) as [|a tls w]; [reflexivity|].
+    destruct (spec_route cfg rules t) as [|a tls w nm]; [reflexivity|].
     destruct (Nat.ltb failures (effective_attempts attempts)); split.
     - intros e He. apply in_app_or in He as [He|[<-|[]]]; [|reflexivity].
       apply repeat_spec in He. subst e. reflexivity.
